@@ -92,3 +92,36 @@ def bucket_digests(detector) -> dict:
         except Exception:
             result[name] = "?"
     return result
+
+
+def pipeline_layout(pipeline) -> dict:
+    """Return ``{group name: [[model name, enabled], ...]}`` of a pipeline (read only)."""
+    layout: dict[str, list] = {}
+    for name in pipeline.model_group_names:
+        group = getattr(pipeline, name, None)
+        models = group.models if group is not None else ()
+        layout[name] = [[model.name, bool(model.enabled)] for model in models]
+    return layout
+
+
+def result_digests(buckets_data_tree) -> dict:
+    """Return labels and per-slice digests of the time-stacked result buckets (read only)."""
+    result: dict[str, dict] = {}
+    for name in ("photon", "charge", "pixel", "signal", "image"):
+        try:
+            if name not in buckets_data_tree:
+                continue
+            data_array = buckets_data_tree[name]
+            if "time" not in data_array.dims:
+                continue
+            result[name] = {
+                "labels": [float(t) for t in data_array["time"]],
+                "slices": [
+                    digest(data_array.isel(time=k))
+                    for k in range(data_array.sizes["time"])
+                ],
+                "dtype": str(data_array.dtype),
+            }
+        except Exception:
+            result[name] = {"labels": [], "slices": [], "dtype": "?"}
+    return result
